@@ -2,9 +2,10 @@ package c19
 
 import (
 	"fmt"
+	"sync/atomic"
+	"time"
 
 	"verif/internal/ev"
-	"verif/ref/orderedmap"
 )
 
 // bigSizes: map sizes around the capacities a growing slice passes through (Constraints has 26 key values).
@@ -88,20 +89,31 @@ func bigMaps(c *ev.Ctx) {
 					return
 				}
 				ops := pl.ops(n)
-				m := f.mk()
-				r := orderedmap.New()
-				for i, op := range ops {
-					d := apply(m, r, op)
-					if d == "" {
-						d = observe(m, r)
+				// one replay, observers after every operation, in a goroutine of its own (a blocked call
+				// is a violation); the step of the first difference comes from the progress counter
+				var progress atomic.Int64
+				type out struct{ d string }
+				ch := make(chan out, 1)
+				go func() {
+					_, _, d := runHistoryOn(f, ops, &progress)
+					ch <- out{d}
+				}()
+				var d string
+				select {
+				case o := <-ch:
+					d = o.d
+				case <-time.After(blockedAfter):
+					d = fmt.Sprintf("a call never returns: blocked for %s (a lock taken by an earlier call was not released)", blockedAfter)
+				}
+				c.Add("big_map_steps", int64(len(ops)))
+				c.Eval(true)
+				if d != "" {
+					i := int(progress.Load())
+					if i < 1 {
+						i = 1
 					}
-					c.Inc("big_map_steps")
-					c.Eval(true)
-					if d != "" {
-						c.Violate(fmt.Sprintf("%s;big;n=%d;%s;step=%d", f.name, n, pl.name, i+1),
-							fmt.Sprintf("%s with %d keys (%s), after operation %d of %d (%s): %s", f.name, n, pl.name, i+1, len(ops), op, d), caseT{f.name, ops[:i+1]})
-						break
-					}
+					c.Violate(fmt.Sprintf("%s;big;n=%d;%s;step=%d", f.name, n, pl.name, i),
+						fmt.Sprintf("%s with %d keys (%s), at operation %d of %d (%s): %s", f.name, n, pl.name, i, len(ops), ops[i-1], d), caseT{f.name, ops[:i]})
 				}
 			}
 		}
